@@ -6,6 +6,8 @@
 //!   unpolled : create tell(1), yield, drop it, yield                        -> []
 //!   deferred : create tell(1), tell(2).await, then await the first           -> [2, 1]
 //!   raced    : tell(7) loses a biased select! before being polled, tell(8)   -> [8]
+//!   late     : (timeout variants) create x_with_timeout(9, 50 ms), sleep 300 ms, then await it:
+//!              the operation - and with it its deadline - begins at the first poll -> Ok
 use rsactor::{Actor, ActorRef, ActorWeak, AskHandler, Message, TellHandler};
 use std::sync::{Arc, Mutex};
 
@@ -60,7 +62,9 @@ impl Route {
         }
     }
     fn send_to(&self, v: u32) -> std::pin::Pin<Box<dyn std::future::Future<Output = bool> + Send + '_>> {
-        let d = std::time::Duration::from_secs(5);
+        self.send_within(v, std::time::Duration::from_secs(5))
+    }
+    fn send_within(&self, v: u32, d: std::time::Duration) -> std::pin::Pin<Box<dyn std::future::Future<Output = bool> + Send + '_>> {
         match self {
             Route::Typed(r) => {
                 let f = r.tell_with_timeout(N(v), d);
@@ -110,8 +114,16 @@ async fn run(name: &str, mk: impl Fn(&ActorRef<L>) -> Route) {
         let ok8 = send(8).await;
         settle().await;
         let raced = format!("{:?}", log.lock().unwrap().clone());
-        println!("{name}{} unpolled={unpolled} deferred={deferred} raced={raced} oks={}{}{}",
-                 if timed { "_timeout" } else { "" }, ok1 as u8, ok2 as u8, ok8 as u8);
+        // late
+        let late = if timed {
+            let f9 = route.send_within(9, std::time::Duration::from_millis(50));
+            tokio::time::sleep(std::time::Duration::from_millis(300)).await;
+            f9.await
+        } else {
+            true
+        };
+        println!("{name}{} unpolled={unpolled} deferred={deferred} raced={raced} oks={}{}{} late={}",
+                 if timed { "_timeout" } else { "" }, ok1 as u8, ok2 as u8, ok8 as u8, late as u8);
         drop(route);
         let _ = r.kill();
         let _ = j.await;
